@@ -95,6 +95,16 @@ Theorem hermetic : forall module_ns s m st n b,
 Proof. exact hermetic_l. Qed.
 Print Assumptions hermetic.
 
+(** Every free name of every generated script (function bodies and default-argument
+    expressions) is a pinned builtin or a helper global that a script of the same class
+    registers.  (The tie lemma [tie_script_free_names] re-proves the same of the global names the
+    scripts emitted by the CURRENT generators actually load.) *)
+Theorem free_names_pinned_or_helpers : forall s m st n b,
+  In m (generated_methods s) -> In (st, n, b) (free_refs s m) ->
+  In (n, b) pinned_ns \/ In (n, b) (snippets s).
+Proof. exact free_names_pinned_or_helpers_l. Qed.
+Print Assumptions free_names_pinned_or_helpers.
+
 Theorem intended_never_a_module_binding : forall s m st n b,
   In m (generated_methods s) -> In (st, n, b) (free_refs s m) -> is_module_binding b = false.
 Proof. exact intended_not_module_l. Qed.
